@@ -309,6 +309,9 @@ class Tr:
         """(scrutinee expr, bound name, python var, nonzero_required) when the test narrows an optional int"""
         if isinstance(test, ast.Name) and test.id in env and not isinstance(env[test.id], Poison) and env[test.id][1] == OZ:
             return env[test.id][0], test.id, True, False
+        if isinstance(test, ast.UnaryOp) and isinstance(test.op, ast.Not) and isinstance(test.operand, ast.Name) \
+                and test.operand.id in env and not isinstance(env[test.operand.id], Poison) and env[test.operand.id][1] == OZ:
+            return env[test.operand.id][0], test.operand.id, True, True          # `not x`: true when x is None or 0
         if isinstance(test, ast.Compare) and len(test.ops) == 1 and isinstance(test.left, ast.Name) \
                 and isinstance(test.comparators[0], ast.Constant) and test.comparators[0].value is None \
                 and test.left.id in env and not isinstance(env[test.left.id], Poison) and env[test.left.id][1] in (OZ, "OBV"):
@@ -326,6 +329,13 @@ class Tr:
             n = env.get("#n", 0) + 1
             v = "%s_%d" % (re.sub(r"\W", "_", var), n)
             env_some = dict(env); env_some[var] = (v, {OZ: Z, "OBV": "BV"}[env[var][1]]); env_some["#n"] = n
+            if negated and need_nz:          # `not x`: the false branch has x = Some v with v <> 0
+                a, ta = k_true(env)
+                b, tb = k_false(env_some)
+                a, b, t = self.unify(a, ta, b, tb)
+                if a == b:
+                    return a, t
+                return "(match %s with Some %s => if Z.eqb %s 0%%Z then %s else %s | None => %s end)" % (scrut, v, v, a, b, a), t
             if negated:          # `x is None`: true branch has x = None
                 a, ta = k_true(env)
                 b, tb = k_false(env_some)
@@ -1348,6 +1358,18 @@ def check(repo, pid, scratch, coq_dir, coq_q, thorough=False):
             else:
                 rec["status"] = "unproved"
                 rec["detail"] = out[-600:]
+                gs = next((sp.get("grid") for sp in KERNELS.get(pid, []) if sp["name"] == rec["kernel"]), None)
+                if gs:
+                    # bounded search for an input on which the translated kernel and the model function differ (label only)
+                    two = os.path.join(gen_dir, "SrcTie_%s_%s_grid.v" % (pid, rec["kernel"]))
+                    defn = chunk.split("Theorem ")[0]
+                    with open(two, "w") as f:
+                        f.write(head + defn + "\nEval vm_compute in (first_bad (%s) (%s)).\n" % (gs[1].replace("GEN", "gen_" + rec["kernel"]), gs[0]))
+                    r2 = subprocess.run(["timeout", "120", "coqc"] + coq_q + ["-Q", gen_dir, "QSrcTie", two], capture_output=True, text=True, cwd=coq_dir)
+                    o2 = " ".join((r2.stdout + r2.stderr).split())
+                    if r2.returncode == 0 and "= Some" in o2:
+                        rec["kernel_counterexample"] = o2[o2.index("= Some"):][:200]
+                        rec["detail"] = "the translated kernel and the model function differ at " + rec["kernel_counterexample"] + " (grid %s) | " % gs[0] + rec["detail"][-300:]
                 if rec.get("kind") == "fit-skeleton":
                     # not the canonical skeleton: look for a bounded script on which its runs differ from the machine (a test, for the replay)
                     two = os.path.join(gen_dir, "SrcTie_%s_%s_cmp.v" % (pid, rec["kernel"]))
